@@ -1040,7 +1040,11 @@ def run(ctx):
         "bracket a sign change and are closer than xtol + 4eps|root|; validated on the recorded "
         "evaluation trace of every synthetic run against the CONFIGURED errTol",
         "wallPressure is a function of (velocity, first guess, pressAbsErrTol): validated end "
-        "to end by bit-identical repetition",
+        "to end by bit-identical repetition and by reproducing the solver's final call bit for "
+        "bit on a fresh EOM. It DOES depend strongly on the first guess (unchanged tree, "
+        "E=0.048, v=0.5665: P from -1.9e3 to -7.6e5 for guess widths 0.06..1.2, always flagged "
+        "converged); on the public solveWall path this did not break the sign change "
+        "re-evaluated from the returned wallParams (12 points x 4 thickness guesses)",
         "not covered: convergence of the inner pressure iteration (only its flag is modelled); "
         "out-of-equilibrium mode end to end (collision files unavailable offline)"]
 
